@@ -10,6 +10,8 @@ void *vsim_peek_userptr(const ssl_t *ssl) { return ssl ? ssl->userPtr : NULL; }
 size_t vsim_sizeof_ssl(void) { return sizeof(ssl_t); }
 int vsim_peek_outlen(const ssl_t *ssl) { return ssl ? ssl->outlen : 0; }
 int vsim_peek_inlen(const ssl_t *ssl) { return ssl ? ssl->inlen : 0; }
+int vsim_peek_insize(const ssl_t *ssl) { return ssl ? ssl->insize : 0; }
+int vsim_peek_outsize(const ssl_t *ssl) { return ssl ? ssl->outsize : 0; }
 int vsim_peek_err(const ssl_t *ssl) { return ssl ? ssl->err : 0; }
 #ifdef USE_DTLS
 int vsim_peek_dtls_flight_done(const ssl_t *ssl) { return ssl ? ssl->flightDone : 0; }
